@@ -161,7 +161,8 @@ def main(tier: str, seed: int) -> int:
     from mc import c02_shared
 
     only = os.environ.get("VERIF_C02_FAMILIES")
-    shared = [e for e in c02_shared.entries() if not only or e["family"] in only.split(",")]
+    shared = [e for e in c02_shared.entries() if (not only or e["family"] in only.split(","))
+              and (tier == "thorough" or e.get("quick", True))]
     slow_first = sorted(shared, key=lambda e: e["family"] not in c02_core.SLOW_HISTORY)
     tasks = tasks[:4] + [("mc.c02_shared", "check_entry", dict(entry=e, tier=tier, seed=seed, model=e["name"]))
                          for e in slow_first] + tasks[4:]
